@@ -2,6 +2,7 @@ import VlsModel.Model.Velocity
 import VlsModel.Gen.FnVelocity
 import VlsModel.Gen.FnPersistModel
 import VlsModel.Gen.FnApprover
+import VlsModel.Gen.FnApproveTrait
 import VlsModel.Lemmas.FnGen
 /-
 C12 — the hand-written model `Model/Velocity.lean` proved equal to the function bodies that
@@ -300,12 +301,98 @@ example : toApp (VelocityApprover.approve_keysend (Clock := Nat) (A := Bool) (Pa
 
 /-- **C12_fn_approve_onchain**: on-chain spends go to the delegate alone — the approver's control is neither consulted nor
     changed (the statement of C12 is about the node's fee control for L1, not this one); `set_control` replaces the control
-    as a whole (`control()`, its getter, is named like the field: not emitted by the translator). -/
+    as a whole; `control()` (emitted as `control_fn`: it is named like the field) returns it. -/
 theorem C12_fn_approve_onchain (dlg : A → Transaction → List TxOut → List Nat → Bool) (tx : Transaction) (po : List TxOut)
     (ui : List Nat) (c : FnApprover.VelocityControl) :
     VelocityApprover.approve_onchain dlg self tx po ui = dlg self.delegate tx po ui ∧
+    VelocityApprover.control_fn self = self.control ∧
     (VelocityApprover.set_control self c).control = c ∧ (VelocityApprover.set_control self c).delegate = self.delegate :=
-  ⟨rfl, rfl, rfl⟩
+  ⟨rfl, rfl, rfl, rfl⟩
 
 end Approver
+
+/-! ## The node-level insertion sites behind an approver: `Approve::handle_proposed_invoice` / `handle_proposed_keysend`
+
+Default methods of the trait `Approve` (approver.rs), translated with the trait's required methods (`approve_invoice`,
+`approve_keysend`) and the `Node` methods they call as explicit parameters: the theorems hold for every approver and every
+node.  `Node::add_invoice` / `add_keysend` are where the *node's* velocity control is consulted (`C12_main` on
+`VelocityControl::insert`). -/
+section InsertionSites
+open VlsModel.Gen.FnApproveTrait
+
+variable {SelfT Node Invoice PaymentHash PaymentState InvoiceHash PublicKey Clock Duration : Type}
+
+/-- **C12_fn_handle_proposed_invoice**: an invoice is answered `Ok(true)` only if the node already holds this very payment
+    (`has_payment`: counted when it was added) or `Node::add_invoice` — the node's velocity control — said so; the
+    approver's (or the allowlist's) consent is necessary for a new invoice but never sufficient: no path approves past the
+    node's control.  A declined approval answers `Ok(false)` without touching the node. -/
+theorem C12_fn_handle_proposed_invoice
+    (psi : Invoice → Rs.M (PaymentHash × PaymentState × InvoiceHash)) (has : Node → PaymentHash → InvoiceHash → Rs.M Bool)
+    (payee : Invoice → PublicKey) (alc : Node → PublicKey → Bool) (addInv : Node → Invoice → Rs.M Bool)
+    (appr : SelfT → Invoice → Bool) (self : SelfT) (node : Node) (inv : Invoice) :
+    (Approve.handle_proposed_invoice psi has payee alc addInv appr self node inv = .ok true →
+      ∃ ph ps ih, psi inv = .ok (ph, ps, ih) ∧
+        (has node ph ih = .ok true ∨
+         (has node ph ih = .ok false ∧ (alc node (payee inv) = true ∨ appr self inv = true) ∧ addInv node inv = .ok true))) ∧
+    (∀ ph ps ih, psi inv = .ok (ph, ps, ih) → has node ph ih = .ok false → alc node (payee inv) = false → appr self inv = false →
+      Approve.handle_proposed_invoice psi has payee alc addInv appr self node inv = .ok false) := by
+  unfold Approve.handle_proposed_invoice
+  constructor
+  · intro h
+    cases hp : psi inv with
+    | error e => simp [hp, bind, Except.bind] at h
+    | ok t =>
+      obtain ⟨ph, ps, ih⟩ := t
+      refine ⟨ph, ps, ih, rfl, ?_⟩
+      cases hh : has node ph ih with
+      | error e => simp [hp, hh, bind, Except.bind] at h
+      | ok b =>
+        cases b
+        · right
+          refine ⟨rfl, ?_⟩
+          cases ha : alc node (payee inv) <;> cases hq : appr self inv <;>
+            simp [hp, hh, ha, hq, bind, Except.bind, pure, Except.pure] at h ⊢ <;> exact h
+        · left; rfl
+  · intro ph ps ih hp hh ha hq
+    simp [hp, hh, ha, hq, bind, Except.bind, pure, Except.pure]
+
+/-- **C12_fn_handle_proposed_keysend**: the same for a keysend: `Ok(true)` only through `has_payment` or
+    `Node::add_keysend` (after the approver's consent); the timestamp of the payment is the node's clock. -/
+theorem C12_fn_handle_proposed_keysend
+    (clk : Node → Clock) (now : Clock → Duration) (psk : PublicKey → PaymentHash → Nat → Duration → Rs.M (PaymentState × InvoiceHash))
+    (has : Node → PaymentHash → InvoiceHash → Rs.M Bool) (appr : SelfT → PaymentHash → Nat → Bool)
+    (addKs : Node → PublicKey → PaymentHash → Nat → Rs.M Bool) (self : SelfT) (node : Node) (payee : PublicKey)
+    (ph : PaymentHash) (amt : Nat) :
+    (Approve.handle_proposed_keysend clk now psk has appr addKs self node payee ph amt = .ok true →
+      ∃ ps ih, psk payee ph amt (now (clk node)) = .ok (ps, ih) ∧
+        (has node ph ih = .ok true ∨
+         (has node ph ih = .ok false ∧ appr self ph amt = true ∧ addKs node payee ph amt = .ok true))) ∧
+    (∀ ps ih, psk payee ph amt (now (clk node)) = .ok (ps, ih) → has node ph ih = .ok false → appr self ph amt = false →
+      Approve.handle_proposed_keysend clk now psk has appr addKs self node payee ph amt = .ok false) := by
+  unfold Approve.handle_proposed_keysend
+  constructor
+  · intro h
+    cases hp : psk payee ph amt (now (clk node)) with
+    | error e => simp [hp, bind, Except.bind] at h
+    | ok t =>
+      obtain ⟨ps, ih⟩ := t
+      refine ⟨ps, ih, rfl, ?_⟩
+      cases hh : has node ph ih with
+      | error e => simp [hp, hh, bind, Except.bind] at h
+      | ok b =>
+        cases b
+        · right
+          refine ⟨rfl, ?_⟩
+          cases hq : appr self ph amt <;> simp [hp, hh, hq, bind, Except.bind, pure, Except.pure] at h ⊢ <;> exact h
+        · left; rfl
+  · intro ps ih hp hh hq
+    simp [hp, hh, hq, bind, Except.bind, pure, Except.pure]
+
+/-- non-vacuity: a new keysend that the approver accepts and the node's control refuses is answered `Ok(false)` -/
+example : Approve.handle_proposed_keysend (SelfT := Unit) (Node := Unit) (PublicKey := Unit) (PaymentHash := Nat) (Clock := Unit)
+    (Duration := Nat) (PaymentState := Unit) (InvoiceHash := Nat)
+    (fun _ => ()) (fun _ => 5) (fun _ h _ _ => .ok ((), h)) (fun _ _ _ => .ok false) (fun _ _ _ => true) (fun _ _ _ _ => .ok false)
+    () () () 7 1000 = .ok false := rfl
+end InsertionSites
+
 end VlsModel.Props.C12Fn
